@@ -160,3 +160,24 @@ def join(env, nys, dims):
         want.append((left_next - right_prev).reshape(-1))
     env.eq("C14,C19", "section separation == corner-to-corner distance along each edge's own constrained axes", h.compute(ins)["section_separation"],
            np.concatenate(want))
+
+
+@job("c14.multi_section_resolution", ("C14",), cfgs=[dict(symmetry=True)])
+def multi_section_resolution(env, symmetry):
+    """the four ways of stating the resolution of a multi-section mesh - node counts (ny, nx), panel counts (bpanels, cpanels) and
+    the two mixed forms - give the same meshes node for node: the documented shape (nx, sum(ny) - (sections - 1), 3) follows
+    the request (concrete sizes, decided by evaluation)"""
+    from openaerostruct.geometry.geometry_mesh_gen import generate_mesh as gen_multi
+    base = dict(name="surface", num_sections=2, symmetry=symmetry, taper=[0.8, 0.6], span=[1.5, 2.0], sweep=[0.1, 0.2], root_chord=1.2)
+    ny, nx = np.array([3, 4]), 3
+    ref_mesh, ref_secs = gen_multi(dict(base, ny=ny, nx=nx))
+    env.functions.add("openaerostruct.geometry.geometry_mesh_gen.generate_mesh")
+    env.holds("C14", "multi-section mesh has the documented shape (nx, sum(ny) - (sections - 1), 3)", ref_mesh.shape == (nx, int(ny.sum()) - 1, 3), str(ref_mesh.shape))
+    for label, spec in (("bpanels + cpanels", dict(bpanels=ny - 1, cpanels=nx - 1)), ("bpanels + nx", dict(bpanels=ny - 1, nx=nx)), ("ny + cpanels", dict(ny=ny, cpanels=nx - 1))):
+        try:
+            m, secs = gen_multi(dict(base, **spec))
+            ok = m.shape == ref_mesh.shape and np.allclose(m, ref_mesh, rtol=0, atol=1e-13) and all(a.shape == b.shape and np.allclose(a, b, rtol=0, atol=1e-13) for a, b in zip(secs, ref_secs))
+            detail = "shape %s against %s" % (m.shape, ref_mesh.shape)
+        except Exception as e:
+            ok, detail = False, "%s: %s" % (type(e).__name__, e)
+        env.holds("C14", "resolution given as %s == the same request in node counts" % label, bool(ok), detail)
